@@ -38,6 +38,7 @@ type purgeCase struct {
 	Crash       int      `json:"crash"`
 	BuildFault  string   `json:"buildfault"`
 	ResumeFault string   `json:"resumefault"`
+	Early       bool     `json:"early"`
 	Between     []string `json:"between"`
 	DeleteFault string   `json:"deletefault"`
 	Visible     []string `json:"visible"`
@@ -291,6 +292,40 @@ func purgeReplay(args []string) error {
 			if crash < 0 {
 				success = false
 			} else {
+				// uploads that start while the build is interrupted: their blobs are written now, their
+				// descriptor is held back until the resumed build has finished
+				var pendings []chan error
+				var pctls []*store.Ctl
+				if _, stored := fx.indexKeys(); stored == 0 {
+					// no chunk of the interrupted build was stored: the resumed build is a new index, started now
+					c.Early = false
+				}
+				if c.Early {
+					for _, b := range c.Between {
+						ustores, uctl := e.client()
+						uctl.HoldFn = func(storeName, op, key string) bool {
+							return storeName == "meta" && op == "put" && strings.HasSuffix(key, "bundle.yaml")
+						}
+						gen[b]++
+						done := make(chan error, 1)
+						go func(b string, g int) { done <- fx.upload(ustores, b, g) }(b, gen[b])
+						for t0 := time.Now(); len(uctl.HeldKeys()) == 0 && time.Since(t0) < 20*time.Second; {
+							time.Sleep(time.Millisecond)
+						}
+						if len(uctl.HeldKeys()) == 0 {
+							panic("driver: the early upload did not reach its descriptor write")
+						}
+						pendings = append(pendings, done)
+						pctls = append(pctls, uctl)
+						visible[b] = gen[b]
+					}
+					time.Sleep(2 * time.Millisecond)
+				}
+				defer func() {
+					for _, u := range pctls {
+						u.ReleaseAll()
+					}
+				}()
 				r.Steps++
 				rf := c.ResumeFault
 				if rf == "" {
@@ -305,6 +340,13 @@ func purgeReplay(args []string) error {
 				if err != nil {
 					success = false
 				}
+				for i, u := range pctls {
+					u.ReleaseAll()
+					if uerr := <-pendings[i]; uerr != nil {
+						panic(fmt.Sprintf("driver: early upload failed: %v", uerr))
+					}
+				}
+				pctls = nil
 			}
 		} else if crash >= 0 {
 			// the crash point was beyond the end of the build: it simply completed
@@ -312,6 +354,9 @@ func purgeReplay(args []string) error {
 		}
 		time.Sleep(2 * time.Millisecond)
 		for _, b := range c.Between {
+			if c.Early && crash >= 0 {
+				break // uploaded while the build was interrupted (above)
+			}
 			r.Steps++
 			gen[b]++
 			if err := fx.upload(stores, b, gen[b]); err != nil {
